@@ -189,6 +189,49 @@ def gen_attrs(ctx, cases):
                     cases.append(("attr-3", head + " ; " + a + " ; " + b + " ; " + c))
 
 
+
+AM_NAMES = ["a", "aa", "ab", "b", "b-", "ba", "c", "c.d", "d", "e", "x:y", "z"]
+AM_PROBES = AM_NAMES + ["A", "a0", "az", "b.", "bz", "aaa", "zz", "_", "d-"]
+
+
+def gen_attrmap(ctx, cases):
+    """DOMAttrMapImpl's name-sorted vector: elements receive 0..12 attributes in a random order (setAttribute and
+    createAttribute + setAttributeNode), some are removed / replaced again; after every update DOMAttrMapImpl::findNamePoint
+    itself is asked (query `fp`) for present and absent names -- before the first, between two, after the last entry, prefixes
+    and extensions of entries -- and getAttributeNode for every name; the final dump compares the order of the vector"""
+    rng = ctx.rng
+    thorough = ctx.tier == "thorough"
+    for size in range(0, len(AM_NAMES) + 1):
+        for rep in range((40 if thorough else 6) if size > 1 else 1):
+            names = rng.sample(AM_NAMES, size)
+            ops = ["cr 0 e %s -" % hx("el")]
+            nxt = 2                                    # next node number
+            present = []
+            for nm in names:
+                if rng.random() < 0.5:
+                    ops.append("sa 1 %s %s" % (hx(nm), hx("v")))
+                    nxt += 2                           # the Attr and its Text child
+                else:
+                    ops.append("cr 0 a %s -" % hx(nm))
+                    ops.append("sn 1 %d" % nxt)
+                    nxt += 1
+                present.append(nm)
+                probes = AM_PROBES if len(present) == size else rng.sample(AM_PROBES, 4) + [nm]
+                ops += ["fp 1 %s" % hx(q) for q in probes]
+            ops += ["gn 1 %s" % hx(q) for q in AM_NAMES]
+            # removals, a replacement of a present name and a re-insertion, each followed by probes
+            for nm in rng.sample(present, min(len(present), 3)):
+                ops.append("ra 1 %s" % hx(nm) if rng.random() < 0.5 else "si 1 %s 0" % hx(nm))
+                if ops[-1].startswith("ra"):
+                    present.remove(nm)
+                ops += ["fp 1 %s" % hx(q) for q in rng.sample(AM_PROBES, 5) + [nm]]
+            if present:
+                nm = rng.choice(present)
+                ops += ["cr 0 a %s -" % hx(nm), "sn 1 %d" % nxt]
+                nxt += 1
+                ops += ["fp 1 %s" % hx(q) for q in AM_PROBES]
+            cases.append(("attrmap-%d" % min(size, 9), "1 0 ; " + " ; ".join(ops)))
+
 UKEYS = [hx("k1"), hx("k2"), hx("k3")]
 
 
@@ -518,6 +561,7 @@ def run(ctx):
         gen_counts(ctx, cases)
         gen_rename(ctx, cases)
         gen_attrs(ctx, cases)
+        gen_attrmap(ctx, cases)
         gen_userdata(ctx, cases)
         gen_ids(ctx, cases, not f35_present)
         gen_random(ctx, cases)
@@ -680,7 +724,7 @@ def run(ctx):
                             "DocumentFragments with children legal/illegal for the target at every position (length<=3, thorough 4) into "
                             "Document/Attr/Element/Text by appendChild/insertBefore/replaceChild; character-data offsets and counts in "
                             "{0,1,len-off-1,len-off,len-off+1,len,len+100,4095,4096,5000,2^32-1,2^32,2^63,2^64-off-1,2^64-off,2^64-1}; renameNode "
-                            "over node position x namespace x qualified-name grids, twice in a row; random sequences (quick 260x200 + 40x40 ops; "
+                            "over node position x namespace x qualified-name grids, twice in a row; attribute vectors of 0..12 names inserted in random order with DOMAttrMapImpl::findNamePoint queried after every update; random sequences (quick 260x200 + 40x40 ops; "
                             "thorough 5000x1000 + 2000x40) with operands drawn uniformly from ALL live nodes; every line compared with the "
                             "extracted model token by token (exception codes and full structural dumps), every agreeing line replayed against "
                             "the reference DOM in lock step; non-trivial = contains a raised DOMException and a successful structural operation; "
